@@ -4,6 +4,7 @@
 cd /verif
 for d in seeded/*/; do
   sid=$(basename $d)
+  if python3 -c "import json,sys;sys.exit(0 if 'obsolete' in json.load(open('$d/meta.json')) else 1)"; then echo "$sid OBSOLETE (see meta.json)"; continue; fi
   checks=$(python3 -c "import json;print(' '.join(json.load(open('$d/meta.json'))['checks']))")
   if ! git -C /repo apply /verif/$d/patch.diff 2>/dev/null; then echo "$sid APPLY-FAILED"; continue; fi
   for id in $checks; do
